@@ -263,8 +263,7 @@ Definition wraps (orig tmpl : fmeta) : fmeta :=
 (* wrap_callable's elif chain for plain functions: is_async_generator (inspect.isasyncgenfunction),
    is_coroutine (inspect.iscoroutinefunction), is_generator (inspect.isgeneratorfunction), else function -
    each picks the wrap_* whose closure has that kind.  A @types.coroutine function is a generator
-   function for inspect: it gets wrap_generator's plain `def ... yield` closure, which does not carry
-   the iterable-coroutine flag. *)
+   function for inspect: it gets wrap_generator's plain `def ... yield` closure ... *)
 Definition dispatch (m : fmeta) : fkind :=
   match m_kind m with
   | FAsyncGenerator => FAsyncGenerator
@@ -274,22 +273,33 @@ Definition dispatch (m : fmeta) : fkind :=
   | FPlain => FPlain
   end.
 
-Definition wrap_meta (m : fmeta) : fmeta := wraps m (template (dispatch m)).
+(* ... which wrap_generator then marks with types.coroutine when the decorated function carries
+   CO_ITERABLE_COROUTINE (since /repo f61df74):
+       if func.__code__.co_flags & inspect.CO_ITERABLE_COROUTINE: wrapper = types.coroutine(wrapper)
+   types.coroutine on a generator function sets the flag on its code and returns the function *)
+Definition types_coroutine (t : fmeta) : fmeta :=
+  {| m_name := m_name t; m_doc := m_doc t; m_sig := m_sig t;
+     m_kind := match m_kind t with FGenerator => FGenCoroutine | k => k end |}.
 
-Theorem wrap_meta_id : forall m, m_kind m <> FGenCoroutine -> wrap_meta m = m.
-Proof. intros [n d s k] H. destruct k; try reflexivity. cbn in H. congruence. Qed.
+Definition wrap_meta (m : fmeta) : fmeta :=
+  let w := wraps m (template (dispatch m)) in
+  match m_kind m with FGenCoroutine => types_coroutine w | _ => w end.
 
-(* name, doc and signature are kept for every kind *)
+Theorem wrap_meta_id : forall m, wrap_meta m = m.
+Proof. intros [n d s k]. destruct k; reflexivity. Qed.
+
+(* name, doc and signature are kept for every kind (also without the f61df74 marking) *)
 Theorem wrap_meta_names : forall m,
   m_name (wrap_meta m) = m_name m /\ m_doc (wrap_meta m) = m_doc m /\ m_sig (wrap_meta m) = m_sig m.
-Proof. intros m. repeat split. Qed.
+Proof. intros [n d s k]. destruct k; repeat split. Qed.
 
-(* the kind of a @types.coroutine function is NOT preserved: the result of the decorated function can no
-   longer be awaited *)
-Theorem wrap_meta_gencoroutine : forall m,
-  m_kind m = FGenCoroutine -> m_kind (wrap_meta m) = FGenerator /\ wrap_meta m <> m.
+(* the marking is needed: without it the kind of a @types.coroutine function is not preserved (the result
+   of the decorated function could not be awaited) - what /repo did before f61df74 *)
+Theorem unmarked_gencoroutine_loses_kind : forall m,
+  m_kind m = FGenCoroutine ->
+  m_kind (wraps m (template (dispatch m))) = FGenerator /\ wraps m (template (dispatch m)) <> m.
 Proof.
-  intros [n d s k] H. cbn in H. subst k. split; [reflexivity|]. unfold wrap_meta, wraps; cbn. congruence.
+  intros [n d s k] H. cbn in H. subst k. split; [reflexivity|]. unfold wraps; cbn. congruence.
 Qed.
 
 Lemma wrap_meta_nonvacuous :
@@ -297,5 +307,5 @@ Lemma wrap_meta_nonvacuous :
   = {| m_name := "fib"%string; m_doc := Some "doc"%string; m_sig := 3; m_kind := FAsyncGenerator |}
   /\ template FAsyncGenerator <> {| m_name := "fib"%string; m_doc := Some "doc"%string; m_sig := 3; m_kind := FAsyncGenerator |}
   /\ wrap_meta {| m_name := "sleep0"%string; m_doc := None; m_sig := 1; m_kind := FGenCoroutine |}
-     = {| m_name := "sleep0"%string; m_doc := None; m_sig := 1; m_kind := FGenerator |}.
+     = {| m_name := "sleep0"%string; m_doc := None; m_sig := 1; m_kind := FGenCoroutine |}.
 Proof. split; [reflexivity | split; [discriminate | reflexivity]]. Qed.
